@@ -341,7 +341,7 @@ func (x *runner) sweep(name string, models []*ref.Model, u ref.Universe, k, minT
 
 func Run(o *core.Options) int {
 	r := core.NewReport(o, "exploration",
-		"every model of the bounded family (one per r0-signature class, every stride-th class in quick) x every tuple subset of size<=2 of the model's pool (<=3 on a subset in thorough) x every object node {doc r0, doc r1, doc parent, group member} x filters {user, group, doc, group#member, doc#r1, doc#r0} x request contexts {none,x=1,x=20}; Server.ListUsers vs independent 3-valued least-fixpoint reference evaluated for every candidate entry (objects, typed wildcard, usersets); non-trivial = some candidate entry has reference value T or E; distinct by (model,tuples,object,relation,filter,context)")
+		"every model of the bounded family (one per r0-signature class, every stride-th class in quick) x every tuple subset of size<=2 of the model's pool (size 3 on a subset of the models) x every object node {doc r0, doc r1, doc parent, group member} x filters {user, group, doc, group#member, doc#r1, doc#r0} x request contexts {none,x=1,x=20}; Server.ListUsers vs independent 3-valued least-fixpoint reference evaluated for every candidate entry (objects, typed wildcard, usersets); non-trivial = some candidate entry has reference value T or E; distinct by (model,tuples,object,relation,filter,context)")
 	r.Assume("memory datastore behind a read-counting wrapper",
 		"ListUsersResponse of this API version has only `users` (no excluded_users)",
 		"a returned typed wildcard T:* is judged by the reference value for the subject T:*; it covers every concrete user of type T for completeness",
@@ -355,11 +355,11 @@ func Run(o *core.Options) int {
 	x := &runner{r}
 	all := e2.ValidModels(ref.Family(ref.FamilyOpts{Conds: true}))
 	reps := ref.Representatives(all, 1, o.Seed)
-	stride, k3stride, k3cap := 8, 0, 0
+	stride, k3stride, k3cap := 12, 96, 0
 	main := reps
 	if o.Thorough() {
 		main = ref.Representatives(all, 2, o.Seed)
-		stride, k3stride, k3cap = 1, 24, 2000
+		stride, k3stride, k3cap = 1, 24, 0
 	}
 	for _, a := range o.Args { // development override: "stride=N"
 		if strings.HasPrefix(a, "cpuprofile=") {
@@ -381,9 +381,10 @@ func Run(o *core.Options) int {
 	r.Set("representative_models", len(reps))
 	r.Set("main_sweep_models", len(main))
 	r.Set("main_sweep_class_stride", stride)
-	r.Set("max_tuples", 2)
+	r.Set("max_tuples_main_sweep", 2)
+	r.Set("max_tuples_k3_sweep", 3)
 	if !o.Thorough() {
-		r.Set("bound_note", fmt.Sprintf("quick runs every %d-th signature class of the family (thorough: all classes, 2 models per class, plus |T|=3 on every 24th class capped at 2000 worlds per model)", stride))
+		r.Set("bound_note", fmt.Sprintf("quick runs every %d-th signature class of the family (thorough: all classes, 2 models per class, with |T|=3 on every 24th class; quick: |T|=3 on every 96th class)", stride))
 	}
 	if stride <= len(reps) {
 		x.sweep("main", main, ref.DefaultUniverse(), 2, 1, 0)
